@@ -50,6 +50,27 @@ def resolve_class(name, env):
     return env["classes"][name]
 
 
+def subclass_conforms(cls, term, env):
+    """Type[term]: is the class `cls` a subclass of what `term` denotes (origin class for parameterised terms)?"""
+    kind = term[0]
+    if kind == "any":
+        return True
+    if kind == "cls":
+        return issubclass(cls, resolve_class(term[1], env))
+    if kind == "none_literal":
+        return issubclass(cls, type(None))
+    if kind in ("union",):
+        return any(subclass_conforms(cls, t, env) for t in term[1])
+    if kind == "optional":
+        return issubclass(cls, type(None)) or subclass_conforms(cls, term[1], env)
+    if kind == "literal":
+        return False
+    origin = {"list": list, "set": set, "dict": dict, "tuple": tuple, "vtuple": tuple, "type": type}.get(kind)
+    if origin is not None:
+        return issubclass(cls, origin)
+    raise ValueError(f"Type[{term!r}] not modelled")
+
+
 def build(term, env):
     """Real annotation object for `term`."""
     kind = term[0]
@@ -57,6 +78,8 @@ def build(term, env):
         return typing.Any
     if kind == "cls":
         return resolve_class(term[1], env)
+    if kind == "none_literal":
+        return None  # the literal None as a type argument (PEP 585 generics keep it as is; it stands for NoneType)
     if kind == "list":
         t = build(term[1], env)
         return typing.List[t] if term[2] == "typing" else list[t]
@@ -115,6 +138,8 @@ def label(term):
         return "Any"
     if kind == "cls":
         return term[1]
+    if kind == "none_literal":
+        return "None"
     if kind in ("list", "set", "vtuple", "type"):
         names = {"list": "List", "set": "Set", "vtuple": "Tuple", "type": "Type"}
         inner = label(term[1]) + (", ..." if kind == "vtuple" else "")
@@ -175,12 +200,10 @@ def conforms(value, term, env):
         )
     if kind == "vtuple":
         return isinstance(value, tuple) and all(conforms(x, term[1], env) for x in value)
+    if kind == "none_literal":
+        return value is None
     if kind == "type":
-        if not isinstance(value, type):
-            return False
-        if term[1][0] == "any":
-            return True
-        return issubclass(value, resolve_class(term[1][1], env))
+        return isinstance(value, type) and subclass_conforms(value, term[1], env)
     if kind == "union":
         return any(conforms(value, t, env) for t in term[1])
     if kind == "optional":
@@ -231,7 +254,7 @@ def conforms(value, term, env):
 
 def depth(term):
     kind = term[0]
-    if kind in ("any", "cls", "literal", "bounded", "validated"):
+    if kind in ("any", "cls", "literal", "bounded", "validated", "none_literal"):
         return 0
     if kind in ("list", "set", "vtuple", "optional", "type"):
         return 1 + depth(term[1])
